@@ -86,7 +86,9 @@ def own_copy(R, P):
     R.check(len(mk) == 1 and argstr(s, mk[0].node, 0) == "uri->uri_str", "OWN-COPY", "s_init_from_uri_str:cursor-over-own-buffer", where(s, mk[0]) if mk else s.name,
             "the parser's cursor is made from uri->uri_str", "the parser does not walk the URI object's own buffer")
     ind = s.indirect_calls()
-    R.check(len(ind) == 1 and "&uri_cur" in s.show(ind[0].node), "OWN-COPY", "s_init_from_uri_str:states-get-that-cursor", where(s, ind[0]) if ind else s.name, "every state function is handed that cursor")
+    if not ind:
+        ind = [c for nm in ("s_parse_scheme", "s_parse_authority", "s_parse_path", "s_parse_query_string") for c in s.calls(nm)]  # switch dispatch
+    R.check(len(ind) >= 1 and all("&uri_cur" in s.show(c.node) for c in ind) and len(ind) in (1, 4), "OWN-COPY", "s_init_from_uri_str:states-get-that-cursor", where(s, ind[0]) if ind else s.name, "every state function is handed that cursor")
     cl = s.calls("aws_byte_buf_clean_up")
     zero = [e for e in s.calls({"memset", "__builtin_memset"}) if "uri" in s.show(e.node)]
     rets = [r for r in s.returns() if r.node["a"] and s.is_const(RU.uncast(s, r.node["a"][0])) == -1]
@@ -205,7 +207,7 @@ def host_cursor(R, P):
     num = Num(f, P, C04.ParserHooks(), max_paths=20000)
     sites = access_sites(f)
     # everything evaluated from the declaration of port_search_start on is host / port parsing
-    decl = [e for e in f.all_events() if e.kind == "decl" and any(v["n"] == "port_search_start" for v in e.node["vars"])]
+    decl = [e for e in f.all_events() if e.kind == "decl" and any(v["n"].split("$")[-1] == "port_search_start" for v in e.node["vars"])]  # (also in an expanded helper)
     if not R.require(len(decl) == 1, "s_parse_authority: host parsing anchor (port_search_start) not found"):
         return
     after = RU.reach_from(f, decl[0])
@@ -232,7 +234,7 @@ def host_cursor(R, P):
         if id(n) in targets:
             continue  # a plain store (a result written through an out-parameter): the rule is about what is read
         for st in states.get(eid, []):
-            d = st.env.get("v:userinfo_delim")
+            d = next((v_ for k_, v_ in st.env.items() if k_.startswith("v:") and k_.split("$")[-1].split(":")[-1] == "userinfo_delim"), None)
             if d is None or not entails(st, Poly.const(1) - d):
                 continue  # no user-info on this path
             s2 = st.copy()
@@ -401,7 +403,7 @@ def alphabet(R, P):
                         l = f.d(x["a"][0])
                         if l["k"] == "un" and l["op"] == "deref":
                             stores.append((b, el, x))
-        R.require(len(stores) >= 5, "%s: only %d byte stores found" % (name, len(stores)))
+        R.require(len(stores) >= 4, "%s: only %d byte stores found" % (name, len(stores)))
         labels = {}
         for b in f.blocks.values():
             if b.case is not None or b.default:
@@ -440,6 +442,29 @@ def alphabet(R, P):
                                 work.append(p_)
                     ok = bool(chain) and "default" not in chain and chain <= (unreserved | extra)
                     det = "case labels %s" % sorted(chr(c) for c in chain if isinstance(c, int))
+                    if not ok:
+                        # ... or decided by NUM on every path to the store: aws_isalnum(value) answered true, or the byte
+                        # equals one of the unreserved characters (a chain of == tests, also through a boolean local)
+                        class _H(C04.ParserHooks):
+                            def call(self, num_, st, e, args):
+                                if e.get("callee") == "aws_isalnum":
+                                    a_ = num_.fresh(st, "alnum", None, (0, 1))
+                                    st.notes["alnum"] = a_
+                                    return Poly.atom(a_)
+                                return C04.ParserHooks.call(self, num_, st, e, args)
+                        num_ = Num(f, P, _H(), max_paths=5000)
+                        try:
+                            sts_ = num_.states_at({el["id"]}).get(el["id"], [])
+                        except Limit:
+                            sts_ = []
+                        ok = bool(sts_)
+                        for st in sts_:
+                            vv = st.env.get("v:value")
+                            al = st.notes.get("alnum")
+                            is_al = al is not None and entails(st, Poly.const(1) - Poly.atom(al))
+                            is_un = vv is not None and any(entails(st, vv - c_) and entails(st, Poly.const(c_) - vv) for c_ in (unreserved | extra))
+                            ok = ok and (is_al or is_un)
+                        det = "on paths where aws_isalnum(value) holds or value is one of %s (NUM, %d states)" % (sorted(chr(c_) for c_ in unreserved | extra), len(sts_))
                 else:
                     det = "under aws_isalnum(value)"
                 R.check(ok, "ENCODER", "%s:raw-byte-line%d" % (name, x.get("loc", [0])[0]), "%s:%d in %s()" % (FILE, x.get("loc", [0])[0], name), "input byte stored unescaped only %s" % det,
